@@ -522,6 +522,11 @@ impl Memfs {
 
         // Iterate over source taking into account link following
         let src_root = self._clone_entry(guard, src_root)?.follow(cp.follow);
+        if dst_root == src_root.path() {
+            return Ok(());
+        } else if dst_root.starts_with(src_root.path()) {
+            return Err(format!("can't copy {} into itself {}", src_root.path().display(), dst_root.display()).as_str().into());
+        }
         for entry in self._entries(guard, src_root.path())?.follow(cp.follow) {
             let src = entry?;
 
